@@ -75,6 +75,7 @@ type c08Run struct {
 	deletedByCmd map[string]*disruption.Command
 	everInit     map[string]bool // replacement name -> it reported Initialized at the end of some earlier step
 	latched      bool
+	skipSync     bool // the cluster cache is not brought up to date after this step (informer lag of one step)
 }
 
 func (x *c08Run) newControllers() {
@@ -274,6 +275,15 @@ func (x *c08Run) run(run *explore.Run, steps int, faults bool) {
 							w.EnvDelete(n)
 						}
 					}})
+					// ... the same, but the cluster cache learns about it one step later (informer lag): the next reconcile sees
+					// NotFound in the API while the cache still tracks the NodeClaim
+					menu = append(menu, act{"replacement-vanishes-unobserved:" + name, func() {
+						w.EnvDelete(w.GetNodeClaim(name))
+						if n := w.GetNode("node-" + name); n != nil {
+							w.EnvDelete(n)
+						}
+						x.skipSync = true
+					}})
 				}
 			}
 			for _, cmd := range x.liveCommands() {
@@ -301,7 +311,10 @@ func (x *c08Run) run(run *explore.Run, steps int, faults bool) {
 		x.history = append(x.history, menu[k].name)
 		menu[k].do()
 		w.ClearPersistentFaults()
-		w.SyncCluster()
+		if !x.skipSync {
+			w.SyncCluster()
+		}
+		x.skipSync = false
 		x.checkDisjoint()
 		for _, name := range x.replacementNames() {
 			if nc := w.GetNodeClaim(name); nc != nil && nc.StatusConditions().Get(v1.ConditionTypeInitialized).IsTrue() {
@@ -410,9 +423,9 @@ func init() {
 		if r.Tier == "thorough" {
 			bound = 3
 		}
-		r.Rule = fmt.Sprintf("%d command shapes (drift 1->1, multi-node 2->1, emptiness delete-only, single-node delete, drift 1->2) are started by the real disruption controller and executed by the real orchestration queue with the real lifecycle controller launching / registering / initializing the replacements (kubelet events played by the harness, informers kept current); histories of %d steps: a fair default cycle (disruption round; per replacement lifecycle + kubelet; per command queue reconcile; clock +2s) and every history with <=%d deviations: any other enabled step inserted, clock +11m (past the retry window), controller restart (all in-memory state dropped), a second disruption round, a replacement vanishing, another actor deleting a candidate, or a failure of any individual API / provider call. "+
+		r.Rule = fmt.Sprintf("%d command shapes (drift 1->1, multi-node 2->1, emptiness delete-only, single-node delete, drift 1->2) are started by the real disruption controller and executed by the real orchestration queue with the real lifecycle controller launching / registering / initializing the replacements (kubelet events played by the harness, informers kept current); histories of %d steps: a fair default cycle (disruption round; per replacement lifecycle + kubelet; per command queue reconcile; clock +2s) and every history with <=%d deviations: any other enabled step inserted, clock +11m (past the retry window), controller restart (all in-memory state dropped), a second disruption round, a replacement vanishing (observed by the cluster cache at once, or one step late), another actor deleting a candidate, or a failure of any individual API / provider call. "+
 			"Oracle: at every Delete of a candidate every replacement of its command exists and is Initialized and the command is in flight; live commands never share a provider id; after a fault-free settle the candidates of every command that ended unsuccessfully carry no disruption taint, no DisruptionReason condition and no deletion mark, and none was deleted by the queue. non-trivial = distinct (scenario, history)", len(c08Scenarios), steps, bound)
-		r.Assumptions = []string{"interleaving at reconcile granularity; the StartCommand fan-out inside one round is not a schedule dimension", "informers are kept current after every step (no stale cluster cache)"}
+		r.Assumptions = []string{"interleaving at reconcile granularity; the StartCommand fan-out inside one round is not a schedule dimension", "informers are kept current after every step, except for the one-step lag of the replacement-vanishes-unobserved event"}
 		enum.RunEveryShard(r, int64(len(c08Scenarios)), func(i int64, l *ev.Local) {
 			sc := c08Scenarios[i]
 			ex := &explore.Explorer{Bound: bound, MaxExecs: 400000, Stop: r.Expired, Shard: r.Shard, NShards: r.Shards}
